@@ -4,10 +4,11 @@ use rusty_variant::Variant;
 use crate::RuntimeError;
 use crate::interpreter::byte_size::QByteSize;
 use crate::interpreter::interpreter_trait::InterpreterTrait;
+use crate::interpreter::variant_casts::integer_from_size;
 
 pub fn run<S: InterpreterTrait>(interpreter: &mut S) -> Result<(), RuntimeError> {
     let v: &Variant = &interpreter.context()[0];
-    let len: i32 = v.byte_size() as i32;
+    let len: i32 = integer_from_size(v.byte_size())?;
     interpreter
         .context_mut()
         .set_built_in_function_result(BuiltInFunction::Len, len);
